@@ -258,6 +258,7 @@ class Obligation:
         self.expect = expect  # 'unsat' (proved) or 'sat' (cover / canary)
         self.note = note
         self.witness = witness or {}
+        self.algebra_only = False  # reductions stay opaque symbols (no lemma instances): pure arithmetic goals
 
 
 class Red:
@@ -312,6 +313,7 @@ class Ctx:
         self.notes = []
         self.used_ops = set()
         self.scalars = {}  # name -> z3 const (symbolic python scalars for model extraction)
+        self.no_grad_depth = 0
         self.prefix = ""  # for 2-run names
 
     # -- context manager
@@ -467,6 +469,9 @@ class SymTensor:
         self.prov = prov
         self._memo = {}
         self.graph = None
+        # ghost grad-path flag: True iff the value depends differentiably on policy parameters
+        # (set on policy outputs by contracts, propagated by ops, cleared by detach / no_grad)
+        self.requires_grad = base.requires_grad if base is not None else False
 
     # -- reading
     def snap(self):
@@ -542,7 +547,13 @@ class SymTensor:
         return f"SymTensor({self.name or ''} shape={self.shape} dtype={self.dtype})"
 
 
-def mk(shape, dtype, elem, name=None, prov=None):
+def grad_of(*xs):
+    if _CTX and getattr(_CTX[-1], "no_grad_depth", 0) > 0:
+        return False
+    return any(isinstance(x, SymTensor) and x.requires_grad for x in xs)
+
+
+def mk(shape, dtype, elem, name=None, prov=None, grad=False):
     memo = {}
 
     def e(idx, elem=elem, memo=memo):
@@ -554,7 +565,9 @@ def mk(shape, dtype, elem, name=None, prov=None):
         memo[k] = (idx, v)
         return v
 
-    return SymTensor(shape, dtype, e, name=name, prov=prov)
+    t = SymTensor(shape, dtype, e, name=name, prov=prov)
+    t.requires_grad = bool(grad)
+    return t
 
 
 def input_tensor(name, shape, dtype, ctx=None):
